@@ -21,6 +21,12 @@ RULE = (
     "alone, as an operand of + : *, and inside call / brace Python fragments, parsed and materialized against a frame "
     "holding that column; (c) 55 Python expressions x every subset of their own token boundaries receiving a space (all "
     "single and pairwise insertions beyond 10 boundaries) x quote style x redundant parentheses, in brace and call form; "
+    "(b') all Python keywords and every string up to length 2 (thorough 3) over 12 identifier-like characters (superscript "
+    "digit, vulgar fraction, ligature, micro sign, full-width letter, combining accent, CJK, Arabic-Indic digit) as names, "
+    "same forms, with the NFKC-folded name as a decoy column; (c') every string literal whose body is a sequence of up to 3 "
+    "(thorough 4) atoms out of {letter, space, back-ticked word(s), lone back-tick, escaped own quote, other quote, escaped "
+    "back-slash, ')', '}'} in both quote styles in five call/brace templates: literal contents (ast constants) must be "
+    "preserved by parsing and received unchanged by the called function at materialization; "
     "(d) every string of C14's character enumerations that tokenizes.  Non-trivial = a variant that differs from the "
     "baseline rendering (a, c), a name containing a non-word character (b), a string with >= 2 tokens (d)."
 )
